@@ -24,7 +24,7 @@ import (
 
 func TestMain(m *testing.M) { drv.Main(m) }
 
-const rule = "state machine over Set/Increase/Decrease/Remove/Clear on keys from alphabet {00,'a','b',ff} len 0..4 (shared prefixes, empty key), plus bulk loads of m/2..3m+1 distinct two-byte keys (arithmetic progressions modulo 65536, so that every fan-out up to 255 overflows and splits its nodes, several levels for the small ones), fan-out in {2,3,4,5,7,8,10,16,32,128,254,255}; oracle: map[string]big.Int + raw-store structural audit after every step; non-trivial = some node split AND some removal of a present key (or a removal that emptied a node); distinct by (fan-out, op history) hash"
+const rule = "state machine over Set/Increase/Decrease (amounts of either sign)/Remove/Clear on keys from alphabet {00,'a','b',ff} len 0..4 (shared prefixes, empty key), plus bulk loads of m/2..3m+1 distinct two-byte keys (arithmetic progressions modulo 65536, so that every fan-out up to 255 overflows and splits its nodes, several levels for the small ones), fan-out in {2,3,4,5,7,8,10,16,32,128,254,255}; oracle: map[string]big.Int + raw-store structural audit after every step; non-trivial = some node split AND some removal of a present key (or a removal that emptied a node); distinct by (fan-out, op history) hash"
 
 type model struct {
 	m map[string]*big.Int
